@@ -83,7 +83,9 @@ func (t *stepTracer) CaptureState(env *EVM, pc uint64, op OpCode, gas, cost uint
 func (t *stepTracer) CaptureFault(env *EVM, pc uint64, op OpCode, gas, cost uint64, memory *Memory, stack *Stack, contract *Contract, depth int, err error) error {
 	return nil
 }
-func (t *stepTracer) CaptureEnd(output []byte, gasUsed uint64, tm time.Duration, err error) error { return nil }
+func (t *stepTracer) CaptureEnd(output []byte, gasUsed uint64, tm time.Duration, err error) error {
+	return nil
+}
 
 type epoch struct {
 	name    string
@@ -224,6 +226,30 @@ func TestVerifEVM(t *testing.T) {
 			}
 		}
 	}
+	// call-data / code access with source offsets across the whole 256-bit range (beyond the data, beyond 2^64 with low bits
+	// inside the data): CALLDATALOAD, CALLDATACOPY, CODECOPY
+	{
+		p2 := func(n uint) *big.Int { return new(big.Int).Lsh(big.NewInt(1), n) }
+		offs := append([]*big.Int{}, lattice...)
+		for _, o := range []*big.Int{p2(128), new(big.Int).Add(p2(64), big.NewInt(5)), new(big.Int).Add(p2(255), big.NewInt(7)), new(big.Int).Add(p2(192), big.NewInt(33)), big.NewInt(33), big.NewInt(39), big.NewInt(40)} {
+			offs = append(offs, o)
+		}
+		data := make([]byte, 40)
+		for i := range data {
+			data[i] = byte(0xa0 + i)
+		}
+		for _, off := range offs {
+			runProgram(w, spring, append(append(push32(off), 0x35), retTail...), data, 100000, "lattice")
+			for _, cp := range []byte{0x37, 0x39} {
+				for _, ln := range []byte{32, 1, 0} {
+					code := append([]byte{0x60, ln}, push32(off)...)  // len, srcOffset
+					code = append(code, 0x60, 0x00, cp)               // dstOffset = 0, COPY
+					code = append(code, 0x60, 0x20, 0x60, 0x00, 0xf3) // RETURN(0, 32)
+					runProgram(w, eps[rng.Intn(len(eps))], code, data, 100000, "lattice")
+				}
+			}
+		}
+	}
 	// every opcode byte in every epoch: the set of valid opcodes (modelled ones) and the halt behaviour of the others
 	modelled := map[byte]bool{}
 	for _, o := range []byte{0, 1, 2, 3, 4, 5, 6, 7, 8, 9, 10, 11, 16, 17, 18, 19, 20, 21, 22, 23, 24, 25, 26, 27, 28, 29, 32, 53, 54, 55, 56, 57, 80, 81, 82, 83, 86, 87, 88, 89, 90, 91, 243, 253} {
@@ -286,8 +312,8 @@ func TestVerifEVM(t *testing.T) {
 		runProgram(w, eps[rng.Intn(len(eps))], code, data, gas, "random")
 	}
 	// loops until out of gas / deep stacks
-	runProgram(w, spring, []byte{0x5b, 0x60, 0x01, 0x60, 0x00, 0x56}, nil, 700, "loop")           // JUMPDEST PUSH1 1 PUSH1 0 JUMP: stack grows, ends out of gas
-	runProgram(w, spring, []byte{0x5b, 0x58, 0x80, 0x60, 0x00, 0x56}, nil, 40000, "stackover")     // ~2 pushes per round: reaches the 1024 limit
+	runProgram(w, spring, []byte{0x5b, 0x60, 0x01, 0x60, 0x00, 0x56}, nil, 700, "loop")        // JUMPDEST PUSH1 1 PUSH1 0 JUMP: stack grows, ends out of gas
+	runProgram(w, spring, []byte{0x5b, 0x58, 0x80, 0x60, 0x00, 0x56}, nil, 40000, "stackover") // ~2 pushes per round: reaches the 1024 limit
 	runProgram(w, spring, []byte{0x60, 0x01, 0x60, 0x07, 0x57, 0x00, 0x00, 0x5b, 0x60, 0x2a, 0x60, 0x00, 0x52, 0x60, 0x20, 0x60, 0x00, 0xf3}, nil, 1000, "jumpi-taken")
 	for _, dest := range [][]byte{{0x60, 0xff}, {0x60, 0x02}, {0x7f, 0xff, 0xff, 0xff, 0xff, 0xff, 0xff, 0xff, 0xff, 0xff, 0xff, 0xff, 0xff, 0xff, 0xff, 0xff, 0xff, 0xff, 0xff, 0xff, 0xff, 0xff, 0xff, 0xff, 0xff, 0xff, 0xff, 0xff, 0xff, 0xff, 0xff, 0xff, 0xff}} {
 		// JUMPI with a zero condition and an invalid destination falls through; with a non-zero condition it halts
